@@ -371,7 +371,7 @@ func (self *ArbiterClient) Run() {
 }
 
 func (self *ArbiterClient) Request(command *protocol.CallCommand) (*protocol.CallResultCommand, error) {
-	if self.closed {
+	if self == nil || self.closed {
 		return nil, errors.New("client closed")
 	}
 
